@@ -21,6 +21,7 @@ type MsgSpec struct {
 	Val    int    `json:"val,omitempty"`    // validator id (unknownVal = absent, -2 = malformed)
 	Power  uint64 `json:"power,omitempty"`  // setpower
 	Unsafe bool   `json:"unsafe,omitempty"` // setpower
+	Upper  bool   `json:"upper,omitempty"`  // spell the validator address in upper case (the same address: bech32 allows it)
 	// create
 	Cons    int      `json:"cons,omitempty"` // consensus key id
 	Moniker int      `json:"moniker_len,omitempty"`
@@ -158,19 +159,25 @@ func (h *History) normalize() {
 func (c *Chain) buildMsg(m MsgSpec) (sdk.Msg, error) {
 	k := c.Keys
 	sender := k.accAddr(m.Sender).String()
+	valStr := func(id int) string {
+		if m.Upper {
+			return strings.ToUpper(k.valAddrStr(id))
+		}
+		return k.valAddrStr(id)
+	}
 	switch m.Kind {
 	case "setpower":
-		return &poa.MsgSetPower{Sender: sender, ValidatorAddress: k.valAddrStr(m.Val), Power: m.Power, Unsafe: m.Unsafe}, nil
+		return &poa.MsgSetPower{Sender: sender, ValidatorAddress: valStr(m.Val), Power: m.Power, Unsafe: m.Unsafe}, nil
 	case "remove":
-		return &poa.MsgRemoveValidator{Sender: sender, ValidatorAddress: k.valAddrStr(m.Val)}, nil
+		return &poa.MsgRemoveValidator{Sender: sender, ValidatorAddress: valStr(m.Val)}, nil
 	case "removepending":
-		return &poa.MsgRemovePending{Sender: sender, ValidatorAddress: k.valAddrStr(m.Val)}, nil
+		return &poa.MsgRemovePending{Sender: sender, ValidatorAddress: valStr(m.Val)}, nil
 	case "create":
 		msg := &poa.MsgCreateValidator{
 			Description:       poa.Description{Moniker: strings.Repeat("m", m.Moniker)},
 			Commission:        poa.CommissionRates{Rate: optDec(m.Rate), MaxRate: optDec(m.MaxRate), MaxChangeRate: optDec(m.MaxChg)},
 			MinSelfDelegation: sdkmath.NewInt(m.MSD),
-			ValidatorAddress:  k.valAddrStr(m.Val),
+			ValidatorAddress:  valStr(m.Val),
 		}
 		if m.Cons >= 0 && m.Cons < poolSize {
 			msg.Pubkey = mustAny(k.Pool[m.Cons].ConsPriv.PubKey())
